@@ -172,6 +172,8 @@ func (c *rankCache) Add(id uint64, n uint64) {
 	// unless the count is 0, which is effectively used
 	// to clear the cache value.
 	if n < c.thresholdValue && n > 0 {
+		// The row no longer qualifies: forget any larger count cached earlier.
+		delete(c.entries, id)
 		return
 	}
 
@@ -185,6 +187,9 @@ func (c *rankCache) BulkAdd(id uint64, n uint64) {
 	c.mu.Lock()
 	defer c.mu.Unlock()
 	if n < c.thresholdValue {
+		// The row no longer qualifies (or is empty now): forget any larger
+		// count cached earlier instead of leaving it stale.
+		delete(c.entries, id)
 		return
 	}
 
